@@ -205,6 +205,17 @@ def replay(path):
             return 1
         log("replay: accepted (violation not reproduced)")
         return 0
+    if d["replay"].get("scenario", {}).get("encdom"):
+        sp = os.path.join(wd, "replay_scen.ndjson")
+        vlib.write_ndjson(sp, [d["replay"]["scenario"]])
+        tp = os.path.join(wd, "replay_trace.ndjson")
+        vlib.run_vh(["c08", sp, tp])
+        good, rejected, _ = vlib.validate_runs(vlib.read_ndjson(tp), "PubIn_Trace.tla", "PubIn_Trace.cfg", "C08", "replay", start_ev="EncDom")
+        if rejected:
+            log(f"VIOLATION property=C08 replay={path}")
+            return 1
+        log("replay: accepted (violation not reproduced)")
+        return 0
     ev = d["replay"]["event"]
     items = []
     for i in ev["items"]:
